@@ -815,37 +815,22 @@ Proof.
   split; [exact A1|congruence].
 Qed.
 
-Lemma after_read_N rc s : Pre true s -> incb s = false -> rc >= 0 ->
-  let s' := fst (after_read c nested (s, Some rc)) in Pre true s' /\ incb s' = false.
-Proof.
-  intros HP Hi Hrc. cbn [after_read]. destruct (rc >? 0) eqn:E; [|cbn [fst]; auto].
-  destruct (sock s) as [id|] eqn:Es; [|cbn [fst]; auto].
-  destruct (loop_rc_handle_N rc id s HP Es Hi ltac:(lia)) as (A1 & A2).
-  destruct (loop_rc_handle c nested rc s). exact (conj A1 A2).
-Qed.
-
-Lemma after_read_opt r : Pre true (fst r) -> incb (fst r) = false -> (forall rc, snd r = Some rc -> rc >= 0) ->
-  let s' := fst (after_read c nested r) in Pre true s' /\ incb s' = false.
-Proof.
-  destruct r as [s [rc|]]; cbn [fst snd]; intros HP Hi Hrc; [apply after_read_N; auto|cbn [after_read fst]; auto].
-Qed.
-
 Lemma connack_err_pos rc : connack_err rc > 0.
 Proof. unfold connack_err, E_CONN_REFUSED, E_PROTOCOL. destruct ((0 <? rc) && (rc <? 6)); lia. Qed.
 
 (* result codes of the write paths are never below -1; all that matters here: a non-negative or any code is
    handled by after_read the same way when rc <= 0 *)
-Lemma after_read_any rc s : Pre true s -> incb s = false ->
-  let s' := fst (after_read c nested (s, Some rc)) in Pre true s' /\ incb s' = false.
+Lemma after_read_any id0 rc s : Pre true s -> incb s = false ->
+  let s' := fst (after_read c nested id0 (s, Some rc)) in Pre true s' /\ incb s' = false.
 Proof.
   intros HP Hi. cbn [after_read]. destruct (rc >? 0) eqn:E; [|cbn [fst]; auto].
-  destruct (sock s) as [id|] eqn:Es; [|cbn [fst]; auto].
+  destruct (sock s) as [id|] eqn:Es; [|cbn [fst]; auto]. destruct (id =? id0); [|cbn [fst]; auto].
   destruct (loop_rc_handle_N rc id s HP Es Hi ltac:(lia)) as (A1 & A2).
   destruct (loop_rc_handle c nested rc s). exact (conj A1 A2).
 Qed.
 
-Lemma downgrade_N ok s : Pre true s -> incb s = false ->
-  let s' := fst (after_read c nested (downgrade c nested ok s)) in Pre true s' /\ incb s' = false.
+Lemma downgrade_N id0 ok s : Pre true s -> incb s = false ->
+  let s' := fst (after_read c nested id0 (downgrade c nested ok s)) in Pre true s' /\ incb s' = false.
 Proof.
   intros HP Hi. unfold downgrade.
   destruct (reconnect_body_N ok (set_proto 3 s)) as (A1 & A2).
@@ -859,7 +844,7 @@ Lemma loop_read_N i s : Pre true s -> incb s = false ->
   let s' := fst (loop_read c nested i s) in Pre true s' /\ incb s' = false.
 Proof.
   intros HP Hi. unfold loop_read. destruct (sock s) as [id|] eqn:Es; [|cbn [fst]; auto].
-  assert (Hack : forall rc, let s' := fst (after_read c nested (handle_connack nested rc s)) in Pre true s' /\ incb s' = false).
+  assert (Hack : forall rc, let s' := fst (after_read c nested id (handle_connack nested rc s)) in Pre true s' /\ incb s' = false).
   { intros rc. destruct (handle_connack_N rc id s HP Es Hi) as (A1 & A2).
     unfold handle_connack in *. cbn [fst] in *. apply after_read_any; assumption. }
   destruct i; cbn [fst]; auto.
